@@ -240,6 +240,12 @@ func (c *relsCtx) step(op Op, i int) string {
 		}
 		out, err = render()
 		if keep := op.Str("keep"); err == nil && (keep == "first" || keep == "second") {
+			if keep == "first" {
+				// the document rendered afterwards gets other pictures than the one that is kept
+				for k := 1; k <= c.nph; k++ {
+					td.SetImageFromData(fmt.Sprintf("s%d", k), tinyPNG(160+k+n), nil)
+				}
+			}
 			o2, err2 := render()
 			if err2 != nil || o2 == nil {
 				return "err-render2"
